@@ -40,7 +40,7 @@ def templates(tier):
     for p in sorted(glob.glob(os.path.join(VERIF, "contracts", "*.rs"))):
         b = os.path.basename(p)[:-3]
         text = open(p).read()
-        if not re.search(r"^//@op\s", text, re.M):
+        if not re.search(r"^//@(op|pure)\b", text, re.M):
             continue
         if re.search(r"^//@tier\s+thorough", text, re.M) and tier != "thorough":
             continue
@@ -268,6 +268,63 @@ def run_unit(args):
     return res
 
 
+def pipe_unit():
+    """C06: `pipe!` is plain left-to-right application.  rustc itself expands the real macro (text taken
+    from /repo/src/pipe.rs) on symbolic identifiers for k = 1..6 stages; the expansion must be fk(..f1(s0)..)."""
+    t0 = time.time()
+    res = {"unit": "pipe_macro.off", "template": "pipe_macro", "cfg": "off", "status": "ok", "errors": [], "functions": [], "verified": 0, "n_errors": 0, "smt_ms": 0,
+           "tags": ["C06"], "tag_counts": {"C06": 6}, "assumed": [], "meta": {"sites": 0}}
+    try:
+        src = open(os.path.join(REPO, "src", "pipe.rs")).read()
+        i = src.index("macro_rules! pipe")
+        j = src.index("{", i)
+        depth, e = 0, j
+        while True:
+            depth += src[e] == "{"
+            depth -= src[e] == "}"
+            e += 1
+            if depth == 0:
+                break
+        macro = src[i:e]
+    except Exception as ex:
+        res.update(status="undecided", why=f"pipe! macro not found in src/pipe.rs: {ex}")
+        return res
+    d = os.path.join(BUILD, "pipecheck")
+    os.makedirs(d, exist_ok=True)
+    lines = ["#![allow(unused)]", "#[macro_export]", macro, "fn main() {}", "fn probe(s0: u32, " + ", ".join(f"f{n}: fn(u32) -> u32" for n in range(1, 7)) + ") {"]
+    expect = {}
+    for k in range(1, 7):
+        args = ", ".join(["s0"] + [f"f{n}" for n in range(1, k + 1)])
+        e = "s0"
+        for n in range(1, k + 1):
+            e = f"f{n}({e})"
+        for suffix, tail in (("", ""), ("c", ",")):
+            lines.append(f"    let _k{k}{suffix} = pipe!({args}{tail});")
+            expect[f"_k{k}{suffix}"] = e
+    lines.append("}")
+    open(os.path.join(d, "pipecheck.rs"), "w").write("\n".join(lines) + "\n")
+    env = dict(os.environ, RUSTC_BOOTSTRAP="1")
+    env.pop("RUSTUP_TOOLCHAIN", None)
+    p = sh(["rustc", "--edition", "2021", "-Zunpretty=expanded", os.path.join(d, "pipecheck.rs")], env=env)
+    if p.returncode != 0:
+        res.update(status="undecided", why="rustc could not expand the pipe! probe: " + p.stderr[-800:])
+        return res
+    got = dict((m.group(1), re.sub(r"\s+", "", m.group(2))) for m in re.finditer(r"let (_k\d+c?) =\s*([^;]+);", p.stdout))
+    for name, e in expect.items():
+        res["functions"].append({"fn": f"pipe!{name}", "ok": got.get(name) == e, "us": 0})
+        if got.get(name) == e:
+            res["verified"] += 1
+        else:
+            res["n_errors"] += 1
+            res["errors"].append({"kind": "failed", "property": "C06", "clause": "pipe! is plain left-to-right application", "site": name, "fn": "pipe!",
+                                  "text": f"pipe!({name}) expands to {got.get(name)!r}, expected {e!r}", "message": "macro expansion differs from nested application", "rendered": p.stdout[-1500:]})
+    if res["n_errors"]:
+        res["status"] = "failed"
+    res["cmd"] = "rustc --edition 2021 -Zunpretty=expanded build/pipecheck/pipecheck.rs"
+    res["wall_s"] = round(time.time() - t0, 2)
+    return res
+
+
 def pipeline(tier):
     t0 = time.time()
     with cf.ThreadPoolExecutor(2) as ex:
@@ -277,6 +334,7 @@ def pipeline(tier):
     units = [(n, cfg, rlimit, 0) for n in templates(tier) for cfg in ("off", "on")]
     with cf.ThreadPoolExecutor(14) as ex:
         results = list(ex.map(run_unit, units))
+    results.append(pipe_unit())
     return {"tier": tier, "units": results, "t_expand_s": round(t_expand, 2), "wall_s": round(time.time() - t0, 2)}
 
 
